@@ -7,7 +7,7 @@ A_CLAUSES = ("C01.value", "C01.pull_error", "C01.served_but_unavailable")
 
 def replay(case):
     if "path" in case and "family" in case.get("cfg", {}):
-        return acheck.replay_case(case, A_CLAUSES, None)
+        return acheck.replay_case(case, A_CLAUSES, acheck.judge_valid)
     return ccheck.replay(case)
 
 
@@ -50,7 +50,7 @@ def cfgs(tier):
 
 def run(tier, seed, agg):
     ccheck.run_cases(cfgs(tier), agg, seed)
-    acheck.run_cases(a_cases(tier), A_CLAUSES, agg, None, seed)
+    acheck.run_cases(a_cases(tier), A_CLAUSES, agg, acheck.judge_valid, seed)
     return dict(
         level="model_checking",
         rule="explicit-state BFS to a fixpoint over all interleavings of push(gap in {1,2,3}) and pull(t) (non-decreasing t on the half-hour lattice: every partition of the period into consumer steps, "
